@@ -21,22 +21,26 @@ PReq == cdB(1000)                       \* 10 channels at 0 dBm
 BandMin == 193000000                    \* design band 193.0 - 193.5 THz (MHz)
 BandMax == 193500000
 
-\* rng: 1 = gain 15..20 dB, 2 = gain 18..26 dB; pw: 0 = p_max 9.5 dBm (too low), 1 = 10.5 dBm; sp: 0 plain, 1 Raman,
+\* rng: 1 = gain 15..20 dB, 2 = gain 18..26 dB; pw: 0 = p_max 9.5 dBm (too low), 1 = 10.5 dBm, 2 = 11.5 dBm;
+\* nf0 in centi-dB; sp: 0 plain, 1 Raman,
 \* 2 narrow band (does not cover the design band), 3 band EQUAL to the design band (covers it: edges coincide); fl: 1 = (own, rdm, alw), 2 = (rdm), 3 = (alw), 4 = (own), 5 = ()
 M(rng, pw, nf0, sp, fl) ==
-    [id |-> rng * 10000 + pw * 1000 + nf0 * 100 + sp * 10 + fl,
+    [id |-> rng * 1000000 + pw * 100000 + nf0 * 100 + sp * 10 + fl,
      gmin |-> IF rng = 1 THEN cdB(1500) ELSE cdB(1800), flat |-> IF rng = 1 THEN cdB(2000) ELSE cdB(2600),
-     pmax |-> IF pw = 0 THEN cdB(950) ELSE cdB(1050), nf0 |-> cdB(100) * nf0, nf |-> 0, raman |-> (sp = 1),
+     pmax |-> IF pw = 0 THEN cdB(950) ELSE IF pw = 1 THEN cdB(1050) ELSE cdB(1150), nf0 |-> cdB(nf0), nf |-> 0,
+     raman |-> (sp = 1),
      fmin |-> IF sp = 2 THEN 193200000 ELSE IF sp = 3 THEN BandMin ELSE 191275000,
      fmax |-> IF sp = 3 THEN BandMax ELSE 196125000,
      own |-> fl \in {1, 4}, rdm |-> fl \in {1, 2}, alw |-> fl \in {1, 3}]
 
-Core == {M(1, 1, 5, 0, 1), M(1, 1, 6, 0, 1), M(2, 1, 5, 0, 3), M(2, 1, 6, 0, 2), M(1, 0, 5, 0, 1), M(1, 1, 5, 1, 1),
-         M(1, 1, 5, 2, 1), M(2, 0, 6, 0, 3), M(1, 1, 4, 0, 4), M(2, 1, 6, 1, 3), M(2, 1, 4, 0, 1), M(2, 1, 6, 2, 2),
-         M(1, 1, 9, 0, 1),
-         M(1, 1, 4, 3, 1),          \* quiet, band equal to the design band
-         M(1, 0, 4, 1, 1)}          \* quiet Raman model whose p_max is below the required power
-Wide == {M(rng, pw, nf0, sp, fl) : rng \in {1, 2}, pw \in {0, 1}, nf0 \in {5, 6}, sp \in {0, 1, 2, 3}, fl \in {1, 2, 3, 5}}
+Core == {M(1, 1, 500, 0, 1), M(1, 1, 600, 0, 1), M(2, 1, 500, 0, 3), M(2, 1, 600, 0, 2), M(1, 0, 500, 0, 1),
+         M(1, 1, 500, 1, 1), M(1, 1, 500, 2, 1), M(2, 0, 600, 0, 3), M(1, 1, 400, 0, 4), M(2, 1, 600, 1, 3),
+         M(2, 1, 400, 0, 1), M(2, 1, 600, 2, 2), M(1, 1, 900, 0, 1),
+         M(1, 1, 400, 3, 1),        \* quiet, band equal to the design band
+         M(1, 0, 400, 1, 1),        \* quiet Raman model whose p_max is below the required power
+         M(1, 2, 504, 0, 1),        \* 0.04 dB noisier than M(1, 1, 500, 0, 1) but with 1 dB more output power
+         M(2, 2, 600, 0, 3)}        \* the only kind that can deliver the power required behind an operator VOA
+Wide == {M(rng, pw, nf0, sp, fl) : rng \in {1, 2}, pw \in {0, 1}, nf0 \in {500, 600}, sp \in {0, 1, 2, 3}, fl \in {1, 2, 3, 5}}
 
 Libs == {l \in SUBSET Core : Cardinality(l) \in 1..MaxLib}
           \cup (IF WidePairs THEN {{a} : a \in Wide} \cup {{a, b} : a \in Core, b \in Wide} ELSE {})
@@ -64,12 +68,22 @@ RdmApplies(pos, side) == CASE pos = BOOSTER -> side \in {0, 1}
 FIBRE_OK == 0
 FIBRE_LOSSY == 1
 FIBRE_MIXED == 2
-Ctx(l, g, pos, fibre, useOwn, useRdm, side) ==
-    [g |-> g, p |-> PReq, ext |-> Ext, pos |-> pos, useOwn |-> useOwn, useRdm |-> useRdm, rdmSide |-> side, fibre |-> fibre,
+\* variant of the amplifier's surroundings: PLAIN; FUSED = a Fused element sits directly in front of the amplifier (then
+\* it does not follow a fibre: no Raman, and a ROADM before the Fused is not adjacent: its booster list does not apply);
+\* VOA = the operator set a 1 dB output VOA on the amplifier (its model still auto-selected): the amplifier has to
+\* deliver the design power 1 dB higher, in front of the VOA
+PLAIN == 0
+FUSED == 1
+VOA   == 2
+UVoa  == cdB(100)
+Ctx(l, g, pos, fibre, useOwn, useRdm, side, var) ==
+    [g |-> g, p |-> IF var = VOA THEN PReq + UVoa ELSE PReq, variant |-> var, ext |-> Ext, pos |-> pos, useOwn |-> useOwn, useRdm |-> useRdm, rdmSide |-> side, fibre |-> fibre,
      hasOwn |-> useOwn /\ \E a \in l : a.own,
-     hasRdm |-> useRdm /\ RdmApplies(pos, side) /\ \E a \in l : a.rdm,
+     hasRdm |-> useRdm /\ \E a \in l : a.rdm /\
+                (IF var = FUSED /\ pos \in {BOOSTER, BETWEEN} THEN pos = BETWEEN /\ side \in {0, 2}     \* preamp list of the next ROADM only
+                 ELSE RdmApplies(pos, side)),
      bfmin |-> BandMin, bfmax |-> BandMax,
-     prevFiber |-> pos \in {INLINE, PREAMP}, lossCoef |-> IF fibre = FIBRE_OK THEN 200000 ELSE 300000,
+     prevFiber |-> pos \in {INLINE, PREAMP} /\ var # FUSED, lossCoef |-> IF fibre = FIBRE_OK THEN 200000 ELSE 300000,
      lossCoefRef |-> IF fibre = FIBRE_OK THEN 200000 ELSE IF fibre = FIBRE_LOSSY THEN 300000 ELSE 240000,
      ramanLimit |-> 250000]
 
@@ -78,8 +92,10 @@ AtGain(l, g) == {[a EXCEPT !.nf = a.nf0 + MaxI(0, a.gmin - g)] : a \in l}
 Positions == {<<BETWEEN, 0>>, <<BOOSTER, 0>>, <<INLINE, 0>>, <<INLINE, 1>>, <<INLINE, 2>>, <<PREAMP, 0>>, <<PREAMP, 1>>, <<PREAMP, 2>>}
 \* initial states are enumerated by nested quantification (a set of all cases would be normalised at great cost)
 MCInit == /\ \E l \in Libs : \E g \in GSet(l) : \E pf \in Positions : \E uo \in BOOLEAN : \E ur \in BOOLEAN :
-             \E side \in (IF ur THEN {0, 1, 2} ELSE {0}) :
-                case = [lib |-> AtGain(l, g), c |-> Ctx(l, g, pf[1], pf[2], uo, ur, side)]
+             \E side \in (IF ~ur \/ pf[1] = INLINE THEN {0} ELSE IF pf[1] = BOOSTER THEN {0, 2}
+                          ELSE IF pf[1] = PREAMP THEN {0, 1} ELSE {0, 1, 2}) :
+             \E var \in (IF pf[2] = FIBRE_OK THEN {PLAIN, FUSED, VOA} ELSE {PLAIN}) :
+                case = [lib |-> AtGain(l, g), c |-> Ctx(l, g, pf[1], pf[2], uo, ur, side, var)]
           /\ stage = "start"
           /\ permitted = {}
           /\ outcome = [kind |-> "none", x |-> NoModel]
@@ -113,7 +129,7 @@ OpenCase(lib, c) == \E a \in Permitted(lib, c) : OnlyBelowMinGain(a, c, 0) /\
                         \A b \in Admissible(lib, c) : a.nf < b.nf
 
 Spread == (case.c.g \div 500000) + case.c.pos * 3 + (IF case.c.useOwn THEN 5 ELSE 0) + (IF case.c.useRdm THEN 11 ELSE 0)
-            + case.c.fibre + 13 * case.c.rdmSide + SumFun([a \in case.lib |-> a.id % 9973], case.lib)
+            + case.c.fibre + 13 * case.c.rdmSide + 17 * case.c.variant + SumFun([a \in case.lib |-> a.id % 9973], case.lib)
 \* cases in which no permitted model is capable (membership only) are sampled four times more sparsely
 Stride == IF CapableSet(case.lib, case.c, 0) = {} THEN 4 * EmitStride ELSE EmitStride
 Emit == stage # "start" \/ Spread % Stride # 0
